@@ -642,3 +642,48 @@ func ruleR03_6(w *World, r *Report) {
 	r.Check(revive, "mapSnapshot.putCommonWithTimedType/count a revived key", u.Pos(fn.Pos()), "Size++ when the replaced entry is a tombstone", "a put that replaces a removed (tombstoned) key does not increment the size: Put, Remove, Put leaves Size() == 0 with one live key")
 	r.Check(nInc == 2, "mapSnapshot.putCommonWithTimedType/no other increment", u.Pos(fn.Pos()), "exactly two increments", fmt.Sprintf("%d increments of the size, expected two (absent key, revived key)", nInc))
 }
+
+// R03.7 mutating document methods refuse deleted containers and wrong container kinds
+func ruleR03_7(w *World, r *Report) {
+	u := w.Client()
+	r.Rule("R03.7", "every document method that builds an operation first calls assertLocalOp for the container kind it works on with workOnGarbage=false, and builds the operation only on its error-free edge", 5)
+	n := u.Named(pOrda, "document")
+	if n == nil {
+		r.Lost("orda.document")
+		return
+	}
+	wantKind := map[string]int64{"PutToObject": 2, "DeleteInObject": 2, "InsertToArray": 3, "UpdateManyInArray": 3, "DeleteManyInArray": 3}
+	for i := 0; i < n.NumMethods(); i++ {
+		m := n.Method(i)
+		fn := u.Prog.FuncValue(m)
+		if fn == nil {
+			continue
+		}
+		var ctor ssa.CallInstruction
+		for _, c := range callsIn(fn) {
+			if f := staticCallee(c); f != nil && f.Pkg != nil && f.Pkg.Pkg.Path() == pOperations && strings.HasPrefix(f.Name(), "NewDoc") {
+				ctor = c
+			}
+		}
+		if ctor == nil {
+			continue
+		}
+		cons := "document." + m.Name() + "/assertLocalOp"
+		var as *ssa.Call
+		for _, c := range callsNamed(fn, "assertLocalOp") {
+			as, _ = c.(*ssa.Call)
+		}
+		if as == nil {
+			r.Bad(cons, u.Pos(fn.Pos()), "an operation is built without assertLocalOp: a deleted container or a container of the wrong kind is modified")
+			continue
+		}
+		args := as.Call.Args
+		k, isK := args[len(args)-1].(*ssa.Const)
+		garbageFalse := isK && k.Value != nil && k.Value.ExactString() == "false"
+		kind, _ := constInt(args[len(args)-2])
+		wk, known := wantKind[m.Name()]
+		good := garbageFalse && guardedByNilErr(fn, ctor.(ssa.Instruction), as) && (!known || kind == wk)
+		r.Check(good, cons, u.Pos(as.Pos()), "asserted (live container of the right kind) before the operation is built",
+			fmt.Sprintf("assertLocalOp(kind=%d, workOnGarbage=%s) does not guard the construction of the operation as required (expected kind %d, workOnGarbage=false, operation built only when it returned nil)", kind, exprName(args[len(args)-1]), wk))
+	}
+}
